@@ -1,17 +1,17 @@
 (** Property C07 — writing a graph and reading it back is the identity.
     Only statements, each closed by [exact]; proofs live in Write/WriteProofs.v (writer model alone,
     unbounded) and Write/WriteRound.v (writer model composed with the reader model Reader/ReaderImpl.v;
-    bounded / refutations).  The FULL statement
-        forall g tr, wf_C07 g = true -> ring_contract g (dfs_tree g) tr = true -> roundtrip_code g tr = 0
-    is NOT provable for the current code: [C07_refuted] below (one class is still open: a two-digit ring marker
-    directly followed by a one-digit marker; the classes branch_edge_order and ring_edge_order were repaired in
-    /repo by the fix commits be4ff6e and dd9a0c2 and are no longer excluded anywhere).  What is proved instead:
-      - unbounded: the complete round trip for path graphs of any length ([C07_path_roundtrip]); the writer
+    bounded / former witnesses).  All three defect classes found for C07 were repaired in /repo and are excluded
+    nowhere: branch_edge_order (be4ff6e), ring_edge_order (dd9a0c2), pct_marker_then_digit (b681517).  No class
+    of C07 is open.  What is proved:
+      - unbounded: [C07_roundtrip] (wave 4, below) for every plain connected graph, rings included, no pattern
+        excluded; the complete round trip for path graphs of any length ([C07_path_roundtrip]); the writer
         half for path graphs ([C07_write_path]) and for every chain-shaped
         DFS transcript ([C07_write_chain_transcript]); the DFS on a path graph ([C07_dfs_path]);
-      - bounded: [C07_small], the complete round trip (no class excluded) for every graph of a
-        stated finite family and every iteration order of the ring-edge set (vm_compute);
-      - refuted: the witness of the open class; fixed: the former witnesses of the two repaired classes.
+      - bounded: [C07_small], the complete round trip in the check's own form
+            forall g tr, wf_C07 g = true -> ring_contract ... -> roundtrip_code g tr = 0
+        for every graph of a stated finite family and every iteration order of the ring-edge set (vm_compute);
+      - fixed: the former witnesses of the three repaired classes round-trip.
     Wave 2 (below): the complete round trip for ALL TREES ([C07_tree_roundtrip]), the writer on ALL graphs
     ([C07_write_graph_is_print]), DFS spanning on ALL connected graphs ([C07_dfs_spanning]), the ring-marker
     allocator and its contract ([C07_get_ring_marker_spec], [C07_marks_invariant], [C07_no_open_ring]).
@@ -81,13 +81,13 @@ Theorem C07_fixed_ring_edge_order :
   wf_C07 w_ring = true /\ roundtrip_code w_ring [(0, 2)] = 0%nat /\ write_cgsmiles_graph w_ring [(0, 2)] = Ok (S "{[#A]=1[#B][#C]1}").
 Proof. exact WriteRound.C07_fixed_ring_edge_order. Qed.
 
-(** the full statement is still refuted by the one class that stays open (pct_marker_then_digit) *)
-Theorem C07_refuted : exists g tr, wf_C07 g = true /\ ring_contract g (dfs_tree g) tr = true /\ roundtrip_code g tr <> 0%nat.
-Proof. exact WriteRound.C07_refuted. Qed.
-Theorem C07_refuted_pct_marker :
-  refutes w_pct w_pct_tr 3 2 /\
-  write_cgsmiles_graph w_pct w_pct_tr = Ok (S "{[#A]123[#A]4567[#A]89[#A]%1027[#A]196([#A]538)[#A]%104}").
-Proof. exact WriteRound.C07_refuted_pct_marker. Qed.
+(** REPAIRED (fix b681517): once a `%nn` marker was written on a node every further marker of that node is written
+    `%0n`; the former witness of class pct_marker_then_digit (7 nodes, 16 edges; `[#A]%1027` was read as the one
+    marker 1027) round-trips: in the domain, contract holds, class 0, round-trip code 0 *)
+Theorem C07_fixed_pct_marker :
+  refutes w_pct w_pct_tr 0 0 /\
+  write_cgsmiles_graph w_pct w_pct_tr = Ok (S "{[#A]123[#A]4567[#A]89[#A]%10%02%07[#A]196([#A]538)[#A]%10%04}").
+Proof. exact WriteRound.C07_fixed_pct_marker. Qed.
 
 (** BOUNDED: the complete round trip (writer model, then reader model, isomorphism under the numbering
     "order of writing") for every graph of [small_all] in the domain (all labelled graphs on <= 3 nodes with
@@ -96,10 +96,6 @@ Proof. exact WriteRound.C07_refuted_pct_marker. Qed.
 Theorem C07_small : forall g, In g small_all -> wf_C07 g = true ->
   forall tr, In tr (perms (nontree_edges g (dfs_tree g))) -> roundtrip_code g tr = 0%nat.
 Proof. exact WriteRound.C07_small. Qed.
-(** the PARTIAL form (outside the open class) -- proved only on the bounded family *)
-Theorem C07_partial_small : forall g, In g small_all -> wf_C07 g = true ->
-  forall tr, In tr (perms (nontree_edges g (dfs_tree g))) -> class_C07 g tr = 0%nat -> roundtrip_code g tr = 0%nat.
-Proof. exact WriteRound.C07_partial_small. Qed.
 Example C07_small_nonvacuous :
   Z.of_nat (length (filter wf_C07 small_all)) = 9007
   /\ Z.of_nat (length (filter (fun g => wf_C07 g && (cls_branch_order g || cls_ring_order g)) small_all)) = 6600.
@@ -183,19 +179,22 @@ Theorem C07_no_open_ring : forall sf ntext stext rsymt tr T p isb d,
   snd (fst (wtextR sf ntext stext (rlist_of tr) rsymt p isb d [] T)) = [].
 Proof. exact no_open_ring. Qed.
 
-(** PARTIAL (rings): for every plain graph with ring edges, outside the `%nn`-then-digit pattern, the reader
-    model reads the written text as the token machine's denotation of the writer's own item list (DFS tree + ring
-    items in the order of writing).  Missing for the full statement on arbitrary ring edges: that this denotation
-    is isomorphic to the input (proved for trees: [C07_tree_roundtrip]; bounded for rings: [C07_small]). *)
-Theorem C07_rings_reader_sim_partial : forall fo g tr start,
+(** rings, reader half: for every plain graph with ring edges the reader model reads the written text as the token
+    machine's denotation of the writer's own item list (DFS tree + ring items in the order of writing).  No pattern
+    is excluded (the `%nn`-then-digit pattern is not written any more, [RingRead.tlinsR_rings_plain]).  That this
+    denotation is isomorphic to the input is [C07_roundtrip] below. *)
+Theorem C07_rings_reader_sim : forall fo g tr start,
   plain_graph g = true -> min_node g = Ok start ->
   (forall bond, In bond tr -> In (snd bond) (neighbors g (fst bond))) ->
   (forall k, In k (node_keys g) -> name_ok fo (name_of g k) = true) ->
   exists T, rkey T = start /\ dfs_edges g start = Ok (redges T) /\ NoDup (rkeys T) /\
     let items := fst (tlinsR (name_of g) (esym_of g) (rlist_of tr) (rsym_of g tr) false 0 None [] T) in
-    (rings_plain items = true ->
-     exists s, write_cgsmiles_graph g tr = Ok s /\ read_cgsmiles fo s = denote_lin fo items).
-Proof. exact graph_text_is_read_partial. Qed.
+    exists s, write_cgsmiles_graph g tr = Ok s /\ read_cgsmiles fo s = denote_lin fo items.
+Proof. exact graph_text_is_read. Qed.
+(** the writer's items of a node never have a one-digit marker directly behind a % form *)
+Theorem C07_no_pct_then_digit : forall name esym rlist rsym_o t isb d ns mk,
+  rings_plain (fst (tlinsR name esym rlist rsym_o isb d ns mk t)) = true.
+Proof. exact tlinsR_rings_plain. Qed.
 Example C07_rings_nonvacuous :
   plain_graph ex_rings = true /\ ring_contract ex_rings (dfs_tree ex_rings) ex_rings_tr = true
   /\ write_cgsmiles_graph ex_rings ex_rings_tr = Ok (S "{[#A]#1[#B]$2=[#C]11[#D][#E]2.[#F]1}")
@@ -204,8 +203,8 @@ Proof. exact (conj ring_example_plain (conj ring_example_contract (conj ring_exa
 
 (** ================================================================ wave 4: ring edges, unbounded *)
 (** C07 for EVERY plain, well-formed, connected graph, ring-closing edges included: under the contract on the ring
-    transcript (tr = the non-tree edges, each once: the four hypotheses on tr; the set ORDER is arbitrary) and
-    outside the `%nn`-then-digit pattern, the reader model reads what the writer model writes as a graph
+    transcript (tr = the non-tree edges, each once: the four hypotheses on tr; the set ORDER is arbitrary), with
+    no pattern excluded, the reader model reads what the writer model writes as a graph
     ISOMORPHIC to the input ([graph_iso]: a bijection on the nodes carrying the parsed attributes of every name
     and the order of EVERY pair of nodes).  Composition: write_graph_is_print, the reader component's
     reader_sim_lin, machine_flat (token machine = flat fold), run_inv (writer/reader ring tables in step, the
@@ -219,10 +218,7 @@ Theorem C07_roundtrip : forall fo A g tr start,
      (exists te, In te (dfs_tree g) /\ same_edge (u, v) te = true) \/ (exists e, In e tr /\ same_edge (u, v) e = true)) ->
   (forall k, In k (node_keys g) -> name_ok fo (name_of g k) = true) ->
   (forall k, parse_graph_base_node fo (name_of g k) = Ok (A k)) ->
-  exists T, rkey T = start /\ dfs_edges g start = Ok (redges T) /\ NoDup (rkeys T)
-    /\ (forall x, In x (rkeys T) <-> In x (node_keys g))
-    /\ (rings_plain (the_items (name_of g) (esym_of g) (rsym_of g tr) T tr) = true ->
-        exists s h, write_cgsmiles_graph g tr = Ok s /\ read_cgsmiles fo s = Ok h /\ graph_iso A g h).
+  exists s h, write_cgsmiles_graph g tr = Ok s /\ read_cgsmiles fo s = Ok h /\ graph_iso A g h.
 Proof. exact FullRound.C07_roundtrip. Qed.
 
 (** the same with the contract in the boolean form the check evaluates on every case ([ring_contract]) *)
@@ -231,16 +227,14 @@ Theorem C07_roundtrip_contract : forall fo A g tr start,
   ring_contract g (dfs_tree g) tr = true ->
   (forall k, In k (node_keys g) -> name_ok fo (name_of g k) = true) ->
   (forall k, parse_graph_base_node fo (name_of g k) = Ok (A k)) ->
-  exists T, rkey T = start /\ dfs_edges g start = Ok (redges T) /\ NoDup (rkeys T)
-    /\ (forall x, In x (rkeys T) <-> In x (node_keys g))
-    /\ (rings_plain (the_items (name_of g) (esym_of g) (rsym_of g tr) T tr) = true ->
-        exists s h, write_cgsmiles_graph g tr = Ok s /\ read_cgsmiles fo s = Ok h /\ graph_iso A g h).
+  exists s h, write_cgsmiles_graph g tr = Ok s /\ read_cgsmiles fo s = Ok h /\ graph_iso A g h.
 Proof. exact ContractBridge.C07_roundtrip_contract. Qed.
 
 Print Assumptions C07_roundtrip_contract.
 Print Assumptions C07_roundtrip.
 Print Assumptions C07_tree_roundtrip.
-Print Assumptions C07_rings_reader_sim_partial.
+Print Assumptions C07_rings_reader_sim.
+Print Assumptions C07_no_pct_then_digit.
 Print Assumptions C07_write_graph_is_print.
 Print Assumptions C07_dfs_spanning.
 Print Assumptions C07_get_ring_marker_spec.
@@ -252,9 +246,7 @@ Print Assumptions C07_write_chain_transcript.
 Print Assumptions C07_dfs_path.
 Print Assumptions C07_write_path.
 Print Assumptions C07_path_roundtrip.
-Print Assumptions C07_refuted.
 Print Assumptions C07_fixed_branch_edge_order.
 Print Assumptions C07_fixed_ring_edge_order.
-Print Assumptions C07_partial_small.
-Print Assumptions C07_refuted_pct_marker.
+Print Assumptions C07_fixed_pct_marker.
 Print Assumptions C07_small.
